@@ -1363,6 +1363,60 @@ pub fn early_creator_cells() -> Vec<Scenario> {
     v
 }
 
+/// An event of the auth difference that is NOT a power event and whose state key is unconflicted:
+/// `jn` joins twice concurrently (MB1, MB2), every fork converged on MB2, and in one fork only a
+/// conflicted topic cites the superseded MB1 in its `auth_events`. MB1 is then in exactly one auth
+/// chain, hence in the full conflicted set; it passes the mainline pass and lands on the unconflicted
+/// key — only the final overlay of the unconflicted state map restores MB2.
+pub fn overlay_member(ver: u32, who: usize, ts_flip: bool, third_fork: bool) -> Scenario {
+    let cr = USERS[who % USERS.len()];
+    let jn = USERS[(who + 1 + who / USERS.len() % 4) % USERS.len()];
+    let create_c = if ver >= 11 { json!({}) } else { json!({"creator": cr}) };
+    let (t1, t2) = if ts_flip { (11, 10) } else { (10, 11) };
+    let c = mk_ev("$c", cr, "m.room.create", Some(""), create_c, vec![], vec![], 1);
+    let mc = mk_ev("$mc", cr, "m.room.member", Some(cr), member("join"), vec![c.id.clone()], vec![c.id.clone()], 2);
+    let pl = mk_ev("$pl", cr, "m.room.power_levels", Some(""), json!({"users": {cr: 100}, "events": {"m.room.topic": 0}}), vec![mc.id.clone()], vec![c.id.clone(), mc.id.clone()], 3);
+    let jr = mk_ev("$jr", cr, "m.room.join_rules", Some(""), json!({"join_rule": "public"}), vec![pl.id.clone()], vec![c.id.clone(), mc.id.clone(), pl.id.clone()], 4);
+    let mb1 = mk_ev("$mb1", jn, "m.room.member", Some(jn), member("join"), vec![jr.id.clone()], vec![c.id.clone(), jr.id.clone(), pl.id.clone()], t1);
+    let mb2 = mk_ev("$mb2", jn, "m.room.member", Some(jn), json!({"membership": "join", "displayname": "B"}), vec![jr.id.clone()], vec![c.id.clone(), jr.id.clone(), pl.id.clone()], t2);
+    let ta = mk_ev("$ta", jn, "m.room.topic", Some(""), json!({"topic": "A"}), vec![mb1.id.clone(), mb2.id.clone()], vec![c.id.clone(), pl.id.clone(), mb1.id.clone()], 30);
+    let tb = mk_ev("$tb", cr, "m.room.topic", Some(""), json!({"topic": "B"}), vec![mb1.id.clone(), mb2.id.clone()], vec![c.id.clone(), pl.id.clone(), mc.id.clone()], 31);
+    let events = vec![c.clone(), mc.clone(), pl.clone(), jr.clone(), mb1.clone(), mb2.clone(), ta.clone(), tb.clone()];
+    let store: Store = events.iter().map(|e| (e.id.clone(), e.clone())).collect();
+    let base = vec![
+        ("m.room.create".to_owned(), String::new(), c.id.clone()),
+        ("m.room.member".to_owned(), cr.to_owned(), mc.id.clone()),
+        ("m.room.power_levels".to_owned(), String::new(), pl.id.clone()),
+        ("m.room.join_rules".to_owned(), String::new(), jr.id.clone()),
+        ("m.room.member".to_owned(), jn.to_owned(), mb2.id.clone()),
+    ];
+    let mut s1 = base.clone();
+    s1.push(("m.room.topic".into(), String::new(), ta.id.clone()));
+    let mut s2 = base.clone();
+    s2.push(("m.room.topic".into(), String::new(), tb.id.clone()));
+    let mut sets = vec![s1, s2];
+    if third_fork {
+        sets.push(base);
+    }
+    let chains = sets
+        .iter()
+        .map(|s| auth_chain(&store, s.iter().map(|x| x.2.clone())).into_iter().collect())
+        .collect();
+    Scenario { ver, events, sets, chains, rejected: vec![] }
+}
+
+pub fn overlay_member_cells() -> Vec<Scenario> {
+    let mut v = Vec::new();
+    for ver in [6u32, 10, 11] {
+        for who in [0usize, 3, 7] {
+            for (flip, third) in [(false, false), (true, false), (false, true)] {
+                v.push(overlay_member(ver, who, flip, third));
+            }
+        }
+    }
+    v
+}
+
 /// The F4 witness of DESIGN §7: two conflicting topics, one sent before the only power-levels
 /// event (ts 50), one citing it (ts 20).
 pub fn f4_witness(ver: u32) -> Scenario {
